@@ -4,6 +4,7 @@ cNN_*  = harness of property CNN;  cNN_t_* = thorough tier only (quick filters u
 DEFAULT_TIMEOUT = {"quick": 900, "thorough": 3600}
 DEFAULT_MEM_GB = {"quick": 12, "thorough": 24}
 DEFAULT_JOBS = {"quick": 12, "thorough": 8}
+THOROUGH_EXTRA_LAYOUTS = 3   # per schema, drawn with VERIF_SEED (derive harness crate, thorough tier only)
 
 TRUSTED_BASE = [
     "rustc + Kani 0.68 MIR->goto translation, CBMC 6.11, CaDiCaL",
